@@ -204,7 +204,7 @@ def c10spec (j obs : Json) : Bool × String := Id.run do
     match tr.back? with
     | some ev =>
       let vals := (J.arr ev).toList.drop 1 |>.map J.str
-      let keys := ["6631", "7431", "6d657373616765", "6b31", "6b32"]
+      let keys := ["6631", "7431", "6d657373616765", "6b31", "6b32", "7432"]
       for (k, got) in keys.zip vals do
         let want := match fields.find? (·.1 == k) with
           | some (_, r) => s!"{renderType r}={r}"
